@@ -71,6 +71,42 @@ fn nf(v: &RVal) -> String {
 	s
 }
 
+/// Canonical rendering of the number a JSON number literal denotes (exact decimal arithmetic on the
+/// text): two literals get the same rendering iff they denote the same number.
+fn num_norm(s: &str) -> String {
+	let (neg, rest) = match s.strip_prefix('-') {
+		Some(r) => (true, r),
+		None => (false, s),
+	};
+	let (mant, exp) = match rest.find(|c| c == 'e' || c == 'E') {
+		Some(i) => (&rest[..i], rest[i + 1..].trim_start_matches('+').parse::<i128>().unwrap_or(if rest[i + 1..].starts_with('-') { i128::MIN / 4 } else { i128::MAX / 4 })),
+		None => (rest, 0),
+	};
+	let (int, frac) = match mant.find('.') {
+		Some(i) => (&mant[..i], &mant[i + 1..]),
+		None => (mant, ""),
+	};
+	let digits: String = format!("{}{}", int, frac);
+	let mut point = int.len() as i128 + exp;
+	let stripped = digits.trim_start_matches('0');
+	point -= (digits.len() - stripped.len()) as i128;
+	let stripped = stripped.trim_end_matches('0');
+	if stripped.is_empty() {
+		return "0".to_string();
+	}
+	format!("{}0.{}e{}", if neg { "-" } else { "" }, stripped, point)
+}
+
+/// The same tree with every number replaced by the canonical rendering of the number it denotes.
+fn numeric_twin(v: &RVal) -> RVal {
+	match v {
+		RVal::Num(s) => RVal::Num(num_norm(s)),
+		RVal::Arr(a) => RVal::Arr(a.iter().map(numeric_twin).collect()),
+		RVal::Obj(e) => RVal::Obj(e.iter().map(|(k, v)| (k.clone(), numeric_twin(v))).collect()),
+		x => x.clone(),
+	}
+}
+
 fn c15_pair(rep: &mut Report, fam: &str, ra: &RVal, rb: &RVal, a: &Value, b: &Value, want: bool, full: bool) {
 	rep.evaluations += 1;
 	let case = || json!({"sub": "unordered-pair", "a": doc_of(ra), "b": doc_of(rb)});
@@ -81,6 +117,12 @@ fn c15_pair(rep: &mut Report, fam: &str, ra: &RVal, rb: &RVal, a: &Value, b: &Va
 			return;
 		}
 	};
+	if got && !want && nf(&numeric_twin(ra)) == nf(&numeric_twin(rb)) {
+		// the two differ in the spelling of numbers only: whether such numbers are equal is not C15's
+		// business (the crate compares spellings; a tree comparing them as numbers would not break C15)
+		rep.count("pairs_equal_up_to_number_spelling_reported_equal(noted)", 1);
+		return;
+	}
 	if got != want {
 		rep.violation(
 			if want { "C15:reports-unequal" } else { "C15:reports-equal" },
@@ -676,7 +718,13 @@ fn c14_pair(rep: &mut Report, fam: &str, a: &Value, b: &Value, content_equal: bo
 			return;
 		}
 	};
-	if eq != content_equal {
+	// values that differ in the spelling of numbers only: the property asks that equality, order and
+	// hash agree with each other, not that such numbers be unequal (the checks below still apply)
+	let spelling_only = eq && !content_equal && numeric_twin(&to_rval(a)) == numeric_twin(&to_rval(b));
+	if spelling_only {
+		rep.count("values_equal_up_to_number_spelling_compared_equal(noted)", 1);
+	}
+	if eq != content_equal && !spelling_only {
 		rep.violation(
 			if content_equal { "C14:equal-content-not-eq" } else { "C14:different-content-eq" },
 			format!("[{}] values with {} content: == gives {}", fam, if content_equal { "identical" } else { "different" }, eq),
